@@ -39,8 +39,10 @@ def r07_1(ctx: Ctx, rep: Report) -> None:  # noqa: C901
     rep.instance()
 
     def is_data(n: Node) -> Optional[str]:
-        if n.kind == "stmt" and isinstance(n.ast, ast.Assign) and isinstance(n.ast.value, ast.Call) and isinstance(n.ast.value.func, ast.Attribute) and n.ast.value.func.attr == "data" and isinstance(n.ast.targets[0], ast.Name):
-            return n.ast.targets[0].id
+        if n.kind == "stmt" and isinstance(n.ast, (ast.Assign, ast.AnnAssign)) and isinstance(getattr(n.ast, "value", None), ast.Call) and isinstance(n.ast.value.func, ast.Attribute) and n.ast.value.func.attr == "data":
+            tg = n.ast.targets[0] if isinstance(n.ast, ast.Assign) else n.ast.target
+            if isinstance(tg, ast.Name):
+                return tg.id
         return None
 
     datas = [(n, is_data(n)) for n in cfg.live if is_data(n)]
@@ -134,7 +136,7 @@ def r07_1(ctx: Ctx, rep: Report) -> None:  # noqa: C901
         rep.ok("functions._convert_ios_addr: keys", f"{sorted(reads)} ⊆ keys of AddressAg.data()", where=where(conv))
     # the member's own sequence number is cleared, and only AddressAg members are converted
     rep.instance()
-    ok_members = any(isinstance(n, ast.Call) and src(n.func) == "isinstance" and "AddressAg" in src(n) for n in own_nodes(f.node))
+    ok_members = any(isinstance(n, ast.Call) and src(n.func) == "isinstance" and "AddressAg" in src(n) for g_ in units for n in own_nodes(g_.node))
     f = top
     appends = [n for n in own_nodes(f.node) if isinstance(n, ast.Call) and isinstance(n.func, ast.Attribute) and n.func.attr == "append" and "items" in src(n.func.value)]
     if appends and ok_members:
@@ -449,6 +451,9 @@ def r07_4(ctx: Ctx, rep: Report) -> None:
         rep.violation("ConfigParser._acls_on_interfaces", f"patterns {pats}", "name and direction are not read as (first group, second group) of 'ip access-group NAME in|out'", where(f))
     # binding joined by name equality; input/output reach Acl(**d)
     g = ctx.func("ConfigParser._add_acl_interfaces")
+    from .normalise import normalised as _normalised
+
+    g = _normalised(ctx, g, "unroll")  # `for direction in ("input", "output"): acl_d[direction].append(intf_acl[direction])`
     rep.instance()
     join = any(isinstance(n, ast.Compare) and isinstance(n.ops[0], ast.Eq) and "['name']" in src(n.left) and "['name']" in src(n.comparators[0]) for n in own_nodes(g.node))
     app = {}
@@ -813,6 +818,12 @@ def every_reference_expanded(ctx: Ctx, rep: Report, rid: str = "R07.12") -> None
             rep.violation(top.qualname, f"for {src(lp.target)} in {snippet(lp.iter, 30)}: {snippet(bad, 60)}", "the addresses that receive members are not the entry's own (source, destination) pair narrowed by filters: an entry that references the same group on both sides gets the members on one side only (or an address is processed twice)", where(top, bad), inp="permit ip object-group G object-group G")
     # ---- the members
     n_member_loops = 0
+    # a call that exports the member: `<member>.data()`, or a call of a helper of this module that does so with its argument
+    exporters = {g_.name for g_ in units if g_ is not top and any(isinstance(x, ast.Call) and isinstance(x.func, ast.Attribute) and x.func.attr == "data" for x in own_nodes(g_.node)) and not any(isinstance(x, ast.For) for x in own_nodes(g_.node))}
+
+    def exports(x: ast.AST) -> bool:
+        return isinstance(x, ast.Call) and ((isinstance(x.func, ast.Attribute) and x.func.attr == "data") or (isinstance(x.func, ast.Name) and x.func.id in exporters))
+
     for g in units:
         cfg = ctx.cfg(g)
         for lp in [x for x in cfg.live if x.kind == "for"]:
@@ -822,7 +833,7 @@ def every_reference_expanded(ctx: Ctx, rep: Report, rid: str = "R07.12") -> None
                     p_ = getattr(p_, "_parent", None)
                 return p_
 
-            if not any(isinstance(x, ast.Call) and isinstance(x.func, ast.Attribute) and x.func.attr == "data" and nearest_for(x) is lp.ast for b in lp.ast.body for x in ast.walk(b)):
+            if not any(exports(x) and nearest_for(x) is lp.ast for b in lp.ast.body for x in ast.walk(b)):
                 continue
             n_member_loops += 1
             rep.instance()
@@ -830,7 +841,7 @@ def every_reference_expanded(ctx: Ctx, rep: Report, rid: str = "R07.12") -> None
             for path in loop_body_paths(cfg, lp):
                 if path[-1][0] is not lp:
                     continue
-                converted = any(nd.kind == "stmt" and nd.ast is not None and any(isinstance(x, ast.Call) and isinstance(x.func, ast.Attribute) and x.func.attr == "data" for x in ast.walk(nd.ast)) for nd, _ in path)
+                converted = any(nd.kind == "stmt" and nd.ast is not None and any(exports(x) for x in ast.walk(nd.ast)) for nd, _ in path)
                 if converted:
                     continue
                 atoms = [(nd.ast, lab) for nd, lab in path if nd.kind == "cond" and lab in ("T", "F")]
